@@ -39,6 +39,16 @@ KINDS = {
     # (the class lives in the module under test / in an earlier part of the doctest)
     'badrepr_mod_afterprint': (['>>> print("noise")', '', '>>> ModBadRepr()', 'zzz'], 'ExtractGotReprException', 2),
     'badrepr_afterprint': (['>>> print("noise")', '', '>>> BadRepr()', 'zzz'], 'ExtractGotReprException', 2),
+    # the statement prints *and* returns a value whose repr fails: the printed text mismatches, the checker falls back
+    # on the repr (F27: a repr failing without any Python frame - __repr__ = None, __repr__ returning a non-string)
+    'badrepr_printret': (['>>> pr(BadRepr())', 'zzz'], 'ExtractGotReprException', 0),
+    'norepr_printret': (['>>> pr(NoRepr())', 'zzz'], 'ExtractGotReprException', 0),
+    'intrepr_printret': (['>>> pr(IntRepr())', 'zzz'], 'ExtractGotReprException', 0),
+    'norepr': (['>>> NoRepr()', 'zzz'], 'ExtractGotReprException', 0),
+    # a want that normalises to nothing against real output (F26), and the converse
+    'blankwant': (['>>> print("a")', '<BLANKLINE>'], 'GotWantException', 1),
+    'blankwant2': (['>>> print("a")', '<BLANKLINE>', '<BLANKLINE>'], 'GotWantException', 1),
+    'blankgot': (['>>> print("")', 'b'], 'GotWantException', 1),
     # the failing doctest also emitted a (recorded) warning before it failed
     'warn_then_exc': (['>>> import warnings', '>>> warnings.warn("w9")', '>>> 1/0'], 'ZeroDivisionError', 2),
     'warn_then_wrongout': (['>>> import warnings', '>>> warnings.warn("w9")', '>>> print("a")', 'b'], 'GotWantException', 3),
@@ -51,7 +61,9 @@ KINDS = {
 }
 HELP = ['>>> def hs():', '...     raise ValueError("hs")', '>>> def hl():', '...     a = 1', '...     b = 2',
         '...     c = 3', '...     d = 4', '...     raise ValueError("hl")',
-        '>>> class BadRepr:', '...     def __repr__(self):', '...         raise RuntimeError("norepr")']
+        '>>> class BadRepr:', '...     def __repr__(self):', '...         raise RuntimeError("norepr")',
+        '>>> class NoRepr:', '...     __repr__ = None', '>>> class IntRepr:', '...     __repr__ = int',
+        '>>> def pr(v):', '...     print("noise")', '...     return v']
 MOD = ('def modboom():\n    raise ValueError("modboom")\n\n\nclass ModBadRepr(object):\n    def __repr__(self):\n'
        '        raise RuntimeError("norepr")\n\n\n')
 DIMS = [
@@ -63,7 +75,8 @@ DIMS = [
 FILE_LINE_RE = re.compile(r'File "[^"]*", line (\d+),.*wrt source file')
 
 
-NEEDS_HELP = {'helper_short', 'helper_long', 'badrepr', 'badrepr_nowant_print', 'badrepr_afterprint'}
+NEEDS_HELP = {'helper_short', 'helper_long', 'badrepr', 'badrepr_nowant_print', 'badrepr_afterprint',
+              'badrepr_printret', 'norepr_printret', 'intrepr_printret', 'norepr'}
 
 
 def build(kind, pos, pre):
